@@ -40,9 +40,13 @@ type job struct {
 	Idx   int
 	Torn  bool
 	Conc  bool
+	Two   bool
 }
 
 func (j job) String() string {
+	if j.Two {
+		return "W " + strconv.Itoa(j.Idx)
+	}
 	if j.Conc {
 		return "C " + strconv.Itoa(j.Idx)
 	}
@@ -76,6 +80,7 @@ func main() {
 	onlyFault := flag.Int("only-fault", -1, "run only fault history <index> (reproduction)")
 	onlyTorn := flag.Int("only-torn", -1, "run only torn (double-fault) history <index> (reproduction)")
 	onlyConc := flag.Int("only-conc", -1, "run only concurrent-reader history <index> (reproduction)")
+	onlyTwo := flag.Int("only-two", -1, "run only two-writers history <index> (reproduction)")
 	workers := flag.Int("workers", 0, "worker processes (default: number of CPUs, max 16)")
 	child := flag.String("child", "", "internal: run as worker with this working directory")
 	template := flag.String("template", "", "internal: template directory for -child")
@@ -125,6 +130,25 @@ func main() {
 		"per history (class x writes bucket x overlapping-reads bucket); non-trivial when at least one read overlapped a " +
 		"write in time. On 'illegal' the reads whose answer no list state between their call and return gives are " +
 		"written out as the witness.")
+	r.Rule("Part 5 (two writers): histories (1 fixed, seed-independent, on one P: every hold shape once; the rest seeded, " +
+		"GOMAXPROCS 1 / process default / 4 by index, no collection while an episode runs when on one P) made of ordinary " +
+		"sequential calls (judged as in part 1) and 2-4 EPISODES in which the two stores of the one data directory are " +
+		"written from two goroutines, each the only writer of its store: (hold) the first operation of one store - an " +
+		"append of 1, 2, a few or up to 30 headers, or a rollback - is held inside one flat-file call (Seek/Write of an " +
+		"append, ReadAt/Stat/Truncate of a rollback; before the call reaches the file or after it returned) while the OTHER " +
+		"store completes 1-8 whole operations (appends of other byte lengths, rollbacks), each followed by reads of that " +
+		"store; in 2 of 5 a reader of the held store is started meanwhile; then the held call is released and its " +
+		"store carries on; (storm) both goroutines run 3-16 operations freely from a common start. Throughout an episode " +
+		"the filter store stays at or below a floor height and the block store never rolls back below it (caller contract " +
+		"kept under every interleaving). Oracle: the two stores are independent lists - every read made inside a " +
+		"goroutine equals that store's own list at that point (tip, touched heights and beyond-tip BY CONTENT, touched " +
+		"hashes), the reader overlapping the held write gets, per read, the list before or after that write (never " +
+		"before again after after), and with both goroutines finished the COMPLETE comparison of part 1 runs (every " +
+		"height by content, every hash ever written, ancestors, locators, tips), again at the end and after the final " +
+		"reopen. One evaluation per episode (held op kind @ hold point x kinds passing x batch classes x passing count x " +
+		"reader x GOMAXPROCS; storms: kinds x length x overlap bucket) and per history; an episode is non-trivial when " +
+		"the other store completed its operations while the held call had not returned (storm: when stamped operation " +
+		"intervals of the two stores intersect).")
 	r.Assume("Caller contract the real callers obey (blockmanager.go, chainimport): block batches carry consecutive " +
 		"heights tip+1..; filter headers are written only for heights already in the block store, the last element " +
 		"carries the block hash (block-manager style) or all do (importer style); on a rollback the filter store is " +
@@ -146,6 +170,7 @@ func main() {
 	nFault := r.Pick(40, 600)
 	nTorn := r.Pick(80, 1500)
 	nConc := r.Pick(64, 1600)
+	nTwo := r.Pick(56, 1400)
 
 	scratch := os.Getenv("VERIF_SCRATCH")
 	if scratch == "" {
@@ -166,8 +191,10 @@ func main() {
 	}
 
 	var jobs []job
-	single := *onlyPlain >= 0 || *onlyFault >= 0 || *onlyTorn >= 0 || *onlyConc >= 0
+	single := *onlyPlain >= 0 || *onlyFault >= 0 || *onlyTorn >= 0 || *onlyConc >= 0 || *onlyTwo >= 0
 	switch {
+	case *onlyTwo >= 0:
+		jobs = []job{{Two: true, Idx: *onlyTwo}}
 	case *onlyConc >= 0:
 		jobs = []job{{Conc: true, Idx: *onlyConc}}
 	case *onlyPlain >= 0:
@@ -186,6 +213,9 @@ func main() {
 		}
 		for i := 0; i < nConc; i++ {
 			jobs = append(jobs, job{Conc: true, Idx: i})
+		}
+		for i := 0; i < nTwo; i++ {
+			jobs = append(jobs, job{Two: true, Idx: i})
 		}
 		for i := 0; i < nPlain; i++ {
 			jobs = append(jobs, job{Idx: i})
@@ -262,7 +292,7 @@ func main() {
 	close(ch)
 	wg.Wait()
 
-	for _, k := range []string{"P 0", "P 1", "P 2", "F 0", "F 1", "T 0", "T 1", "T 4", "C 0", "C 1", "C 2"} {
+	for _, k := range []string{"P 0", "P 1", "P 2", "F 0", "F 1", "T 0", "T 1", "T 4", "C 0", "C 1", "C 2", "W 0", "W 1"} {
 		if s, ok := samples[k]; ok {
 			r.Sample(s)
 		}
@@ -273,6 +303,8 @@ func main() {
 	r.Set("concurrent_histories", nConc)
 	r.Set("concurrent_histories_fixed", min(nConc, c07.FixedConc))
 	r.Set("torn_histories_fixed", min(nTorn, c07.FixedTorn))
+	r.Set("two_writer_histories", nTwo)
+	r.Set("two_writer_histories_fixed", min(nTwo, c07.FixedTwo))
 	r.Set("worker_processes", nw)
 	os.RemoveAll(root)
 	if single {
@@ -365,6 +397,12 @@ func childMain(seed int64, templateDir, dir string) {
 			ok, summary := run.RunConcurrent(seed, idx, 3)
 			run.Stats.Add("conc_histories_linearizable", b2i(ok))
 			if summary != nil && idx < 3 {
+				res.Samples = append(res.Samples, summary)
+			}
+		} else if f[0] == "W" {
+			ok, summary := run.RunTwo(seed, idx)
+			run.Stats.Add("two_histories_completed", b2i(ok))
+			if summary != nil && idx < 2 {
 				res.Samples = append(res.Samples, summary)
 			}
 		} else if f[0] == "T" {
